@@ -1523,8 +1523,9 @@ pub fn create_simple_plan(
             }
         }
 
-        // Only process files
-        if !path.is_file() {
+        // Only process regular files; a symlink is never followed (path.is_file() would
+        // follow it and apply would then replace the link by a copy of its edited target)
+        if !entry.file_type().is_some_and(|t| t.is_file()) {
             continue;
         }
 
